@@ -142,7 +142,17 @@ Definition sfd (d t : str) : str := s_sfd ++ d ++ s_comma_sp ++ t ++ [41].
 Fixpoint deser_code_fuel (fuel : nat) (reg : registry) (t d : str) : option str :=
   if is_alias_to_array reg t then Some (sfd d t)
   else if prefixb (s_List ++ s_lb) t || prefixb (s_list ++ s_lb) t then Some (sfd d t)
-  else if prefixb (s_Optional ++ s_lb) t then None   (* legacy branch: the unified type system never renders it *)
+  else if prefixb (s_Optional ++ s_lb) t then        (* legacy branch: inner = return_type[9:-1] *)
+    let inner := slice t 9 (length t - 1) in
+    if prefixb (s_List ++ s_lb) inner || prefixb (s_list ++ s_lb) inner then
+      match fuel with
+      | O => None
+      | S f => match deser_code_fuel f reg inner d with
+               | Some c => Some (c ++ s_if_not_none d)
+               | None => None
+               end
+      end
+    else Some (sfd d inner ++ s_if_not_none d)
   else if contains_s s_bar_None t || suffixb s_bar_None2 t then
     let inner := if contains_s s_bar_None t then strip (replace_all s_bar_None [] t)
                  else strip (replace_all s_bar_None2 [] t) in
@@ -397,14 +407,15 @@ Definition registers_cattrs (reg : registry) (o : cop) : bool :=
 Definition module_has_cattrs (reg : registry) (ops : list cop) : bool := existsb (registers_cattrs reg) ops.
 
 (* ------------------------------------------------------------------ the property, on the decision model *)
+Definition json_like (m : str) : bool := negb (is_binary_media m) && negb (prefixb p_text m).
 (* what the declared response (status, one of its content entries) calls for, from the property text *)
 Inductive want := WNone | WText | WBytes | WStreamBytes | WStreamEvents | WStreamItems | WJsonTyped (t : rty) | WJsonRaw (t : rty).
 
-Definition ideal (r : cresp) (e : option centry) : want :=
+Definition ideal (primary : bool) (r : cresp) (e : option centry) : want :=
   match e with
   | None => WNone
   | Some e =>
-      if is_stream r then
+      if is_stream r && (primary || negb (json_like (c_media e))) then
         (if existsb (fun x => is_binary_media (c_media x)) (cr_content r) || existsb c_binfmt (cr_content r)
          then WStreamBytes
          else if existsb (fun x => contains_s w_event_stream (c_media x)) (cr_content r) then WStreamEvents
@@ -430,3 +441,103 @@ Definition delivers (imported : bool) (p : path) (w : want) : bool :=
   | PStructure c, WJsonRaw t => imported && str_eqb c (sfd s_rj (show t))   (* structuring a JSON-native type is the identity *)
   | _, _ => false
   end.
+
+(* ------------------------------------------------------------------ one "declared 2xx response x content type" *)
+(* the quantifier of C05: module (all operations sharing the endpoints module), operation, declared response,
+   one of its content entries (None when it has no content) *)
+Record dcase := { d_reg : registry; d_module : list cop; d_op : nat; d_resp : nat; d_entry : option nat }.
+Definition the_cop (d : dcase) : cop := nth (d_op d) (d_module d) [].
+Definition the_resp (d : dcase) : cresp := nth (d_resp d) (the_cop d) {| cr_code := Default; cr_content := [] |}.
+Definition the_entry (d : dcase) : option centry :=
+  match d_entry d with Some i => nth_error (cr_content (the_resp d)) i | None => None end.
+(* the status the server answers with: the declared code; 200 for a wildcard key such as "2XX" *)
+Definition the_status (d : dcase) : N := match cr_code (the_resp d) with Num n => n | _ => 200 end.
+Definition the_ctype (d : dcase) : str := match the_entry d with Some e => lower_s (c_media e) | None => [] end.
+
+Definition the_path (d : dcase) : path := handle (d_reg d) (the_cop d) (the_status d) (the_ctype d).
+Definition the_imported (d : dcase) : bool := module_has_cattrs (d_reg d) (d_module d).
+
+Definition the_annotation (d : dcase) : str := show (st_ret (resolve (the_cop d))).
+
+
+(* ---- guards, all on the INPUT (operation shape and rendered types) *)
+Definition heuristic_ok (reg : registry) (t : rty) : bool :=
+  Bool.eqb (should_use_cattrs reg (show t)) (needs_structure t).
+Definition is_primary_case (d : dcase) : bool :=
+  match cprocessed (the_cop d) with
+  | Some (p, _) => resp_eqb (to_resp p) (to_resp (the_resp d))
+  | None => false
+  end.
+Definition same_entry (a b : centry) : bool := str_eqb (c_media a) (c_media b).
+Definition the_want (d : dcase) : want := ideal (is_primary_case d) (the_resp d) (the_entry d).
+
+(* an async generator (a `yield` in the primary/default branch) that also has a `return <value>` branch is a
+   SyntaxError: the endpoints module — and the package — cannot be imported *)
+Definition emits_yield (o : cop) : bool :=
+  let s := resolve o in
+  st_streaming s && negb (is_none_ret s)
+  && (match cprocessed o with Some _ => true | None => false end
+      || match fallback (map to_resp o) with AReturn => true | _ => false end).
+Definition emits_value_return (o : cop) : bool :=
+  existsb (fun r => match cr_code r with Num m => lead2 m | _ => false end) (cothers o).
+Definition module_syntax_ok (ops : list cop) : bool :=
+  forallb (fun o => negb (emits_yield o && emits_value_return o)) ops.
+
+(* the method's single return annotation (the primary response's type) covers this response's type *)
+Definition covers (ann t : rty) : bool :=
+  str_eqb (show ann) (show t)
+  || match ann with TAny => true | TUnion ts => existsb (fun a => str_eqb (show a) (show t)) ts | _ => false end.
+
+Definition C05_holds (d : dcase) : bool :=
+  module_syntax_ok (d_module d) && delivers (the_imported d) (the_path d) (the_want d)
+  && match the_want d with
+     | WJsonTyped t | WJsonRaw t => covers (st_ret (resolve (the_cop d))) t
+     | _ => true
+     end.
+
+(* F05b: the string heuristic and the annotated type disagree on whether the JSON must be structured *)
+Definition guard_F05b (d : dcase) : bool :=
+  match the_entry d with
+  | Some e => if negb (is_stream (the_resp d)) && json_like (c_media e) then heuristic_ok (d_reg d) (c_type e) else true
+  | None => true
+  end.
+(* F05c: a non-JSON body that the handler nevertheless feeds to response.json() (single text/binary content;
+   any secondary 2xx; multi-content collapsing to one Python type), or a JSON string/bytes served as text *)
+Definition guard_F05c (d : dcase) : bool :=
+  let r := the_resp d in
+  match the_entry d with
+  | None => true
+  | Some e =>
+      if is_stream r then is_primary_case d else
+      let single := match cr_content r with [_] => true | _ => false end in
+      let collapsed := match dedup_types (map ctype_to_python (cr_content r)) [] with [_] => true | _ => false end in
+      let picked_other := negb (is_primary_case d) &&
+                          match handler_schema (cr_content r) with Some h => negb (same_entry h e) | None => false end in
+      if json_like (c_media e) then
+        negb picked_other
+        && (single || collapsed || negb (is_primary_case d)
+            || negb (mem_str (show (ctype_to_python e)) [s_str; s_bytes]))
+      else negb (single || collapsed || negb (is_primary_case d))
+  end.
+(* F05e: a structure_from_dict(...) return in a module that never imports it *)
+Definition guard_F05e (d : dcase) : bool :=
+  match the_path d with PStructure _ => the_imported d | _ => true end.
+(* F05f: line/record streams (ndjson, json-seq, multipart) are read with the SSE parser *)
+Definition guard_F05f (d : dcase) : bool :=
+  match the_want d with WStreamItems => false | _ => true end.
+(* F05g: the response is declared under a wildcard key ("2XX"): no case is generated for it *)
+Definition guard_F05g (d : dcase) : bool :=
+  match cr_code (the_resp d) with Num _ => true | _ => false end.
+
+(* F05h: some operation of the module is an async generator with a `return <value>` branch (SyntaxError) *)
+Definition guard_F05h (d : dcase) : bool := module_syntax_ok (d_module d).
+(* F05i: a JSON response whose type the single return annotation does not cover (secondary 2xx of another type) *)
+Definition guard_F05i (d : dcase) : bool :=
+  match the_entry d with
+  | Some e => if json_like (c_media e) && negb (is_stream (the_resp d))
+              then covers (st_ret (resolve (the_cop d))) (c_type e) else true
+  | None => true
+  end.
+
+Definition c05_guard (d : dcase) : bool :=
+  guard_F05b d && guard_F05c d && guard_F05e d && guard_F05f d && guard_F05g d && guard_F05h d && guard_F05i d.
